@@ -1,5 +1,5 @@
-import Bip39V.Lemmas.ConcCode
-import Bip39V.Gen.Code.Language_mapping
+import Bip39V.Lemmas.ConcCodeMem
+import Bip39V.Props.Refine.LanguageMapping
 /-! # C12 at code level: the interleaving semantics of the *translated* `Language.mapping`
 
 `Gen.Code.Language_mapping_prog` is `Language.mapping` as a deep-embedded program, regenerated from
@@ -76,14 +76,14 @@ theorem prog_guarded (ℓ : Int) : CC.GuardedAfter cellOfVar (fun _ => False) (G
 theorem c12_code_racefree {s : CC.Cfg} (r : CC.Reach Gen.Code.Language_mapping_prog s)
     (pre post : List CC.Ev) (tr : CC.Tid) (v : Nat) (h : s.trace = pre ++ CC.Ev.read tr v :: post) :
     ∃ tw p1 p2 p3, pre = p1 ++ CC.Ev.exit tw (cellOfVar v) :: p2 ++ CC.Ev.ret tr (cellOfVar v) :: p3 ∧
-      (∀ t, CC.Ev.write t v ∉ p2 ++ CC.Ev.ret tr (cellOfVar v) :: p3 ++ CC.Ev.read tr v :: post) ∧
-      (∀ t, CC.Ev.write t v ∈ p1 → t = tw) :=
+      (∀ t st, cellOfVar st.var = cellOfVar v → CC.Ev.write t st ∉ p2 ++ CC.Ev.ret tr (cellOfVar v) :: p3 ++ CC.Ev.read tr v :: post) ∧
+      (∀ t st, cellOfVar st.var = cellOfVar v → CC.Ev.write t st ∈ p1 → t = tw) :=
   CC.racefree prog_guarded r pre post tr v h
 
 /-- non-vacuity: two goroutines validating English from a cold start — goroutine 0 builds the map
 (two writes), goroutine 1 finds the cell done and reads; the trace has writes by 0 and a read by 1 -/
 example : ∃ s, CC.Reach Gen.Code.Language_mapping_prog s ∧
-    s.trace = [.enter 0 3, .write 0 3, .write 0 3, .exit 0 3, .ret 0 3, .ret 1 3, .read 1 3] := by
+    s.trace = [.enter 0 3, .write 0 (.makeMap 3), .write 0 (.fill 3 3), .exit 0 3, .ret 0 3, .ret 1 3, .read 1 3] := by
   have r0 : CC.Reach Gen.Code.Language_mapping_prog CC.init := .init
   have r1 := CC.Reach.step r0 (CC.Step.call CC.init 0 Gen.vEnglish rfl)
   have r2 := CC.Reach.step r1 (CC.Step.call _ 1 Gen.vEnglish rfl)
@@ -100,6 +100,117 @@ discipline is not vacuous (this is the shape of the round-6 change `return engli
 fall-through) -/
 example : ¬ CC.GuardedAfter cellOfVar (fun _ => False) (.retVar 3) := fun h => h
 
+/-! ### equals sequential use -/
+
+/-- the closure body of a cell, read off the regenerated arms -/
+def bodyOfCell (c : Nat) : List CStmt :=
+  match Gen.mapArms.find? (fun a => a.cell == c) with
+  | some a => [.makeMap a.wvar, .fill a.wvar a.table]
+  | none => []
+
+theorem arms_cell : ∀ a ∈ Gen.mapArms, cellOfVar a.wvar = a.cell := by decide
+
+theorem bodyOfCell_cell (c : Nat) : ∀ st ∈ bodyOfCell c, cellOfVar st.var = c := by
+  unfold bodyOfCell
+  cases h : Gen.mapArms.find? (fun a => a.cell == c) with
+  | none => simp
+  | some a =>
+    have hm := List.mem_of_find?_eq_some h
+    have hc : a.cell = c := by simpa using List.find?_some h
+    intro st hst
+    simp only [List.mem_cons, List.mem_nil_iff, or_false] at hst
+    rcases hst with rfl | rfl <;> (simp only [CStmt.var]; rw [arms_cell a hm, hc])
+
+/-- the regenerated program has the arm shape: nil, or `Do` with *the* body of the cell and then a
+variable of that cell -/
+theorem prog_armOK : CC.ArmOK cellOfVar bodyOfCell Gen.Code.Language_mapping_prog := by
+  refine ⟨?_, bodyOfCell_cell⟩
+  intro ℓ
+  by_cases h0 : ℓ = Gen.vChineseSimplified; · subst h0; exact Or.inr ⟨_, _, rfl, rfl⟩
+  by_cases h1 : ℓ = Gen.vChineseTraditional; · subst h1; exact Or.inr ⟨_, _, rfl, rfl⟩
+  by_cases h2 : ℓ = Gen.vEnglish; · subst h2; exact Or.inr ⟨_, _, rfl, rfl⟩
+  by_cases h3 : ℓ = Gen.vFrench; · subst h3; exact Or.inr ⟨_, _, rfl, rfl⟩
+  by_cases h4 : ℓ = Gen.vItalian; · subst h4; exact Or.inr ⟨_, _, rfl, rfl⟩
+  by_cases h5 : ℓ = Gen.vJapanese; · subst h5; exact Or.inr ⟨_, _, rfl, rfl⟩
+  by_cases h6 : ℓ = Gen.vSpanish; · subst h6; exact Or.inr ⟨_, _, rfl, rfl⟩
+  by_cases h7 : ℓ = Gen.vKorean; · subst h7; exact Or.inr ⟨_, _, rfl, rfl⟩
+  by_cases h8 : ℓ = Gen.vCzech; · subst h8; exact Or.inr ⟨_, _, rfl, rfl⟩
+  by_cases h9 : ℓ = Gen.vPortuguese; · subst h9; exact Or.inr ⟨_, _, rfl, rfl⟩
+  left
+  unfold Gen.Code.Language_mapping_prog
+  simp only [decide_eq_false h0, decide_eq_false h1, decide_eq_false h2, decide_eq_false h3, decide_eq_false h4,
+    decide_eq_false h5, decide_eq_false h6, decide_eq_false h7, decide_eq_false h8, decide_eq_false h9,
+    Bool.false_eq_true, if_false]
+
+/-- what one run of an arm's closure leaves in its variable: the map built from the arm's table -/
+theorem apply_arm (w t : Nat) : CC.applyAll [.makeMap w, .fill w t] CC.cold w = Go.concMap (some t) := by
+  simp [CC.applyAll, CC.applyStmt, CC.cold, upd, Go.makeMap, Go.concMap]
+
+/-- the value a cold *sequential* call of the translated `mapping()` returns -/
+def coldResult (ℓ : Int) : MapVal := Go.concMap (Model.mapping PkgState.init ℓ).2
+
+theorem coldResult_spec (ℓ : Int) :
+    (Gen.Code.Language_mapping ℓ (Go.conc PkgState.init)).1 = .ok (coldResult ℓ) := by
+  rw [refine_Language_mapping]; rfl
+
+/-- **C12 (equals sequential use, code level)**: in every reachable configuration of the
+interleaving semantics, at every occurrence of a read of the variable that `mapping()` returns for
+receiver value `ℓ`, the shared memory holds there exactly the value a cold sequential call
+`Language_mapping ℓ` returns (`coldResult_spec`) — the map built from `ℓ`'s own table. -/
+theorem c12_code_sequential {s : CC.Cfg} (r : CC.Reach Gen.Code.Language_mapping_prog s)
+    (pre post : List CC.Ev) (tr : CC.Tid) (v : Nat) (h : s.trace = pre ++ CC.Ev.read tr v :: post)
+    (ℓ : Int) (hret : ∃ c body, Gen.Code.Language_mapping_prog ℓ = .onceDo c body (.retVar v)) :
+    CC.memOf pre v = coldResult ℓ := by
+  have hseq := CC.sequential prog_armOK r pre post tr v h
+  obtain ⟨c, body, hprog⟩ := hret
+  have key : ∀ (a : Gen.MapArm), Gen.Code.Language_mapping_prog a.value =
+        .onceDo a.cell [.makeMap a.wvar, .fill a.wvar a.table] (.retVar a.rvar) →
+      bodyOfCell (cellOfVar a.rvar) = [.makeMap a.rvar, .fill a.rvar a.table] →
+      coldResult a.value = Go.concMap (some a.table) → ℓ = a.value → CC.memOf pre v = coldResult ℓ := by
+    intro a hp hb hc hℓ
+    subst hℓ
+    rw [hp] at hprog
+    injection hprog with _ _ e3
+    injection e3 with e3
+    subst e3
+    rw [hseq, hb, apply_arm, hc]
+  by_cases h0 : ℓ = Gen.vChineseSimplified; · exact key ⟨0, 0, 0, 0, 0⟩ rfl rfl rfl h0
+  by_cases h1 : ℓ = Gen.vChineseTraditional; · exact key ⟨1, 1, 1, 1, 1⟩ rfl rfl rfl h1
+  by_cases h2 : ℓ = Gen.vEnglish; · exact key ⟨2, 3, 3, 3, 3⟩ rfl rfl rfl h2
+  by_cases h3 : ℓ = Gen.vFrench; · exact key ⟨3, 4, 4, 4, 4⟩ rfl rfl rfl h3
+  by_cases h4 : ℓ = Gen.vItalian; · exact key ⟨4, 5, 5, 5, 5⟩ rfl rfl rfl h4
+  by_cases h5 : ℓ = Gen.vJapanese; · exact key ⟨5, 6, 6, 6, 6⟩ rfl rfl rfl h5
+  by_cases h6 : ℓ = Gen.vSpanish; · exact key ⟨7, 9, 9, 9, 9⟩ rfl rfl rfl h6
+  by_cases h7 : ℓ = Gen.vKorean; · exact key ⟨6, 7, 7, 7, 7⟩ rfl rfl rfl h7
+  by_cases h8 : ℓ = Gen.vCzech; · exact key ⟨8, 2, 2, 2, 2⟩ rfl rfl rfl h8
+  by_cases h9 : ℓ = Gen.vPortuguese; · exact key ⟨9, 8, 8, 8, 8⟩ rfl rfl rfl h9
+  -- any other receiver value returns nil: it has no returned variable
+  exfalso
+  rcases prog_armOK.shape ℓ with hn | ⟨c', r', hp', _⟩
+  · rw [hn] at hprog; cases hprog
+  · unfold Gen.Code.Language_mapping_prog at hp'
+    simp only [decide_eq_false h0, decide_eq_false h1, decide_eq_false h2, decide_eq_false h3, decide_eq_false h4,
+      decide_eq_false h5, decide_eq_false h6, decide_eq_false h7, decide_eq_false h8, decide_eq_false h9,
+      Bool.false_eq_true, if_false] at hp'
+    cases hp'
+
+/-- the memory transformer of the interleaving semantics is the meaning `Model/GoMap.lean` gives the
+statement (`CStmt.run`), whenever the statement does not panic (a `fill` needs a non-nil map) -/
+theorem applyStmt_run (st : CStmt) (o : Nat → Bool) (m : Nat → MapVal) (h : ∀ v t, st = .fill v t → m v ≠ none) :
+    st.run ⟨o, m⟩ = (.ok (), ⟨o, CC.applyStmt st m⟩) := by
+  cases st with
+  | makeMap v => rfl
+  | fill v t =>
+    have hv := h v t rfl
+    cases hm : m v with
+    | none => exact absurd hm hv
+    | some l =>
+      simp only [CStmt.run, forRangeC, CC.applyStmt, hm]
+      rw [loop_assign v (words t) 0 ⟨o, m⟩ l hm]
+
+#print axioms applyStmt_run
+#print axioms prog_armOK
+#print axioms c12_code_sequential
 #print axioms prog_run
 #print axioms prog_guarded
 #print axioms c12_code_racefree
